@@ -8,7 +8,7 @@ SPEC = {
     'bounds': {'quick': 'frames of <= 3 rows, 2 ceilometers, heights any real or NaN (negative included), type -1..4, '
                         'optional extra column with arbitrary values, arbitrary (repeated) index labels, type given as '
                         'integral float / dt and height given as int',
-               'thorough': 'frames of <= 4 rows (5 for the plain variant)'},
+               'thorough': 'every variant at <= 3 rows; 4 rows for the plain variant'},
     'outside': 'dtype coercions other than the two modelled (what astype does to text etc. is pandas behaviour); NaN time stamps',
     'budget_s': {'quick': 900, 'thorough': 3000},
 }
@@ -105,7 +105,7 @@ def h_structural(E):
 
 HARNESSES = [
     H('H-check', h_check, quick=[(1, 0, 0), (2, 0, 0), (2, 1, 0), (2, 0, 1), (2, 0, 2), (3, 0, 0), (3, 1, 0)],
-      thorough=[(n, x, v) for n in (1, 2, 3, 4) for x in (0, 1) for v in (0, 1, 2) if not (n == 4 and (x or v))] + [(5, 0, 0)],
+      thorough=[(n, x, v) for n in (1, 2, 3) for x in (0, 1) for v in (0, 1, 2)] + [(4, 0, 0)],
       float_model='R',
       cover=['refused: duplicated row', 'refused: VV next to a non-detection', 'accepted: coincident stamps on two ceilometers',
              'accepted: repeated index labels'],
